@@ -397,6 +397,8 @@ C18_Accept(c, trk, call, o) ==
          ELSE (CASE call.op = "next" -> AcceptEfiNext(c.mem, EfiIt(c), s.k, s.dead, o)
                  [] call.op = "len" -> AcceptEfiLen(c.mem, EfiIt(c), s.k, s.dead, o)
                  [] OTHER -> AcceptEfiHint(c.mem, EfiIt(c), s.k, s.dead, o))
+    \* Debug of the map tag (and of the whole boot information) iterates too: it ends in a controlled way
+    [] call.op = "dbg" /\ call.what \in {"efi_mmap", "bi"} /\ HasTagIt(c, "efi_mmap") -> Controlled(o)
     [] OTHER -> TRUE
 \* BootInformation::elf_sections() (deprecated): its own additional bound entry_size * shndx <= size may reject
 \* more than sections() does (with no sections, or in 32-bit arithmetic that overflows); where that bound holds as
@@ -444,6 +446,8 @@ C19_Accept(c, trk, call, o) ==
          LET s == ItOf(trk, call.it) IN
          IF ~HasTagIt(c, "elf") THEN FALSE
          ELSE AcceptElfNext(c.mem, ElfIt(c), ExtOf(c), s.k, s.dead, o)
+    \* Debug of the sections tag (and of the whole boot information) iterates too: it ends in a controlled way
+    [] call.op = "dbg" /\ call.what \in {"elf", "bi"} /\ HasTagIt(c, "elf") -> Controlled(o)
     [] OTHER -> TRUE
 \* calls on an iterator that was never created are recorded as skipped
 C_Skipped(c, trk, call, o) ==
